@@ -656,10 +656,17 @@ impl Tokenizer {
             // For single sequence inputs, create chunks with a maximum of
             // `max_seq_len` tokens each.
             EncoderInput::Item(item) => {
+                // The overlap has no effect if the input fits in one chunk.
+                let overlap = if tokens.len() <= max_tokens_per_chunk {
+                    0
+                } else {
+                    options.overlap
+                };
+
                 let all_offsets = &offsets;
                 for (chunk_idx, (tokens_chunk, offsets_chunk)) in tokens
-                    .chunks_with_overlap(max_tokens_per_chunk, options.overlap)
-                    .zip(offsets.chunks_with_overlap(max_tokens_per_chunk, options.overlap))
+                    .chunks_with_overlap(max_tokens_per_chunk, overlap)
+                    .zip(offsets.chunks_with_overlap(max_tokens_per_chunk, overlap))
                     .enumerate()
                 {
                     let mut tokens = Vec::new();
@@ -710,9 +717,17 @@ impl Tokenizer {
                     return Ok(vec![]);
                 }
 
+                // The overlap has no effect if the second sequence fits in
+                // one chunk.
+                let overlap = if second_tokens.len() <= second_len {
+                    0
+                } else {
+                    options.overlap
+                };
+
                 for (chunk_idx, (tokens_chunk, offsets_chunk)) in second_tokens
-                    .chunks_with_overlap(second_len, options.overlap)
-                    .zip(second_offsets.chunks_with_overlap(second_len, options.overlap))
+                    .chunks_with_overlap(second_len, overlap)
+                    .zip(second_offsets.chunks_with_overlap(second_len, overlap))
                     .enumerate()
                 {
                     let mut tokens = Vec::new();
@@ -1115,6 +1130,60 @@ mod tests {
                 .collect();
             assert_eq!(chunk_tokens, *tokens);
         })
+    }
+
+    #[test]
+    fn test_encode_chunks_overlap_exceeds_input_len() {
+        let vocab = &["[CLS]", "[SEP]", "[UNK]", "This", "is", "a", "test"];
+        let model = make_wordpiece(vocab);
+        let tokenizer = Tokenizer::new(
+            model,
+            TokenizerOptions {
+                cls_token: Some("[CLS]"),
+                sep_token: Some("[SEP]"),
+            },
+        )
+        .with_pre_tokenizer(Box::new(pre_tokenizers::Bert::new()));
+        let get_tokens = |chunks: Vec<super::Encoded>| -> Vec<Vec<String>> {
+            chunks
+                .into_iter()
+                .map(|c| tokenizer.model().get_tokens(c.token_ids()).unwrap())
+                .collect()
+        };
+
+        // Single sequence which fits in one chunk.
+        for max_chunk_len in [None, Some(5), Some(10)] {
+            let options = EncodeOptions {
+                max_chunk_len,
+                overlap: 5,
+            };
+            let chunks = tokenizer
+                .encode_chunks("This is a".into(), options)
+                .unwrap();
+            assert_eq!(get_tokens(chunks), [["[CLS]", "This", "is", "a", "[SEP]"]]);
+        }
+
+        // Empty input.
+        let options = EncodeOptions {
+            max_chunk_len: Some(3),
+            overlap: 1,
+        };
+        let chunks = tokenizer.encode_chunks("".into(), options).unwrap();
+        assert!(chunks.is_empty());
+
+        // Sequence pair where the second sequence fits in one chunk and has
+        // fewer tokens than the overlap.
+        let options = EncodeOptions {
+            max_chunk_len: Some(8),
+            overlap: 2,
+        };
+        let chunks = tokenizer
+            .encode_chunks(("This is", "a test").into(), options)
+            .unwrap();
+        assert_eq!(
+            get_tokens(chunks),
+            [["[CLS]", "This", "is", "[SEP]", "a", "test", "[SEP]"]]
+        );
     }
 
     #[test]
